@@ -55,6 +55,8 @@ fn main() {
                 m.evaluate();
                 dump(&m)
             };
+            if splits_dynamic_array(&bk, &op) { st.bump("skipped_op_cuts_a_dynamic_array"); continue; }
+            if splits_cse_array(&bk, &op) { or.fail("operation_cutting_a_cse_array_accepted", json!({"op": format!("{:?}", op), "workbook": book_json(&bk)}), "accepted".to_string()); continue; }
             st.bump("oracle_ops");
             check_relocation(&before, &after, &op, &ctx, &mut scratch, &mut or, &mut st);
         }
